@@ -13,7 +13,9 @@ EXHAUSTIVE = {'quick': True, 'thorough': True}
 RULE = ('exhaustive: 118 elements x (every tabulated isotope + unspecified) x charge -4..+4 x radical flag; each triple '
         'is built as an atom, packed/unpacked (hydrogens 0..6/None), compiled for the bit-mask matcher and decoded '
         'ten different first lookups, each in a fresh interpreter, followed by all 354 number/symbol lookups; query-side matcher words decoded and tested pairwise against molecule-side words. with an independent bit-layout reader; non-trivial = every (element, isotope, charge, radical) case; '
-        'distinct by that tuple')
+        'distinct by that tuple'
+        '; also: compiled matcher: every La..Mc element as neighbour atom against the query of every other element.'
+        '; also: every tabulated isotope is also packed on a labelled tetrahedral / allene centre where the library accepts a label.')
 ASSUMPTIONS = ['standard symbol table is the literal IUPAC list embedded in this check',
                'pack and matcher code are executed through the pyx transliterator (DESIGN 0.1), not compiled C',
                'atomic mass plausibility: |mass - mass number| < 0.6 u (data sanity bound chosen by the harness)']
@@ -178,6 +180,48 @@ def check_case(z, rec):
         rec.fail('range-reject', f'{sym} isotope {untab}: {type(e).__name__} instead of ValueError', sig=sym)
     else:
         rec.fail('range-reject', f'{sym} untabulated isotope {untab} accepted', sig=sym)
+
+    # ---- the isotope shares its bytes of the pack atom block with the stereo marks: every tabulated isotope must also be
+    # representable on an atom that carries a label (attempted for every element; the library accepts labels on carbon only)
+    for iso in [None] + sorted(dist):
+        for shape in ('tetrahedron', 'allene'):
+            mol = MoleculeContainer()
+            try:
+                c = mol.add_atom(cls_n(iso), 11)
+                if shape == 'tetrahedron':
+                    ns = [mol.add_atom(s) for s in ('F', 'Cl', 'Br', 'I')]
+                    for x in ns:
+                        mol.add_bond(c, x, 1)
+                else:
+                    l, r = mol.add_atom('C'), mol.add_atom('C')
+                    mol.add_bond(c, l, 2)
+                    mol.add_bond(c, r, 2)
+                    ns = [mol.add_atom(s) for s in ('F', 'Cl', 'Br', 'I')]
+                    for x, y in zip(ns, (l, l, r, r)):
+                        mol.add_bond(x, y, 1)
+                    ns = [ns[0], ns[2]]
+                if mol.check_valence():
+                    raise ValueError('valence')
+            except Exception:
+                rec.count(f'labelled-centre:{shape} not constructible for the element')
+                continue
+            for mark in (True, False):
+                w = mol.copy()
+                try:
+                    w.add_atom_stereo(c, ns, mark)
+                except Exception:
+                    pass
+                if w.atom(c).stereo is None:
+                    rec.count(f'labelled-centre:{shape} label refused by the library (element is not a stereocentre)')
+                    break
+                rec.count('labelled-centre:packed')
+                ok, back = rec.guard('pack', lambda: any_unpack(w.pack(compressed=False), compressed=False))
+                if ok:
+                    b = back.atom(c) if back.has_atom(c) else None
+                    if b is None or (b.atomic_number, b.isotope, b.stereo) != (z, iso, w.atom(c).stereo) or back != w:
+                        rec.fail('pack-roundtrip', f'{sym} iso={iso} as labelled {shape} centre ({str(w)!r}) -> '
+                                                   f'{None if b is None else (b.atomic_symbol, b.isotope, b.stereo)} ({str(back)!r})',
+                                 sig=f'{sym}:labelled')
 
     # ---- every (isotope, charge, radical): construct, mass, pack, matcher bits
     seen_bits = {}
